@@ -395,10 +395,17 @@ func ruleOrder(c *Ctx, r *Report) {
 		}
 	}
 	sort.Strings(units)
+	spliced := c.splicedFuncs()
 	n := 0
 	for _, u := range units {
 		now := cur[u]
 		n++
+		if rk, _, _ := strings.Cut(u, "$"); spliced[rk] {
+			// a helper was spliced back into this function: the flags and labels of the splice are
+			// control flow the source does not have, and the order of tests around them is not judged
+			r.Exempt("order@"+u, "-", "a new helper was spliced into this function; its event order is not compared")
+			continue
+		}
 		var bad []string
 		for k, nab := range baselineOrder[u] {
 			a, b, _ := strings.Cut(k, "\t")
@@ -461,6 +468,27 @@ func ruleOrder(c *Ctx, r *Report) {
 	if n < 3 {
 		r.Undec("order@reach", "-", fmt.Sprintf("only %d tabled functions in this property's reach", n))
 	}
+}
+
+// splicedFuncs: the declared functions into which the normalisation pass spliced a helper.
+func (c *Ctx) splicedFuncs() map[string]bool {
+	out := map[string]bool{}
+	for _, l := range c.InlineLog {
+		if !strings.HasPrefix(l, "inlined ") {
+			continue
+		}
+		i := strings.LastIndex(l, " at ")
+		if i < 0 {
+			continue
+		}
+		pos := strings.TrimPrefix(l[i+4:], c.Repo+"/")
+		if f := strings.Split(pos, ":"); len(f) >= 2 {
+			if fn := c.funcAt(f[0] + ":" + f[1]); fn != "" {
+				out[fn] = true
+			}
+		}
+	}
+	return out
 }
 
 func describeEvent(k string) string {
